@@ -652,7 +652,63 @@ def c14(ctx):
                 "or the kind rank orders (Xsd.tla exact decimal arithmetic), later keys breaking ties of same terms, and that ONE total preorder explains all outputs of a batch. evaluations = ORDER BY runs" % n)
 
 
+def rt_validate(ctx, tr, what):
+    trace = read_trace(tr)
+    mism = trace_check(ctx, "Trace_RoundTrip", tr, timeout=6000, tag="Trace_RoundTrip_" + what)
+    bad = set()
+    for line, fields in mism:
+        e = trace[line - 1]
+        bad.add(line)
+        code = fields[0]
+        inp = e if e["ev"] == "RT" else e.get("input", {})
+        cfgs = "%s/%s" % (inp.get("fmt"), "pretty" if inp.get("pretty") else "streaming")
+        text = uncps(e["text"])[:400] if e.get("text") else ""
+        msg = e["out"]["msg"][:160] if e.get("out") else e.get("why", "")
+        detail = "%s [%s, prefix map %s, indentation %s]: in = { %s } ; document = %r ; %s" % (code, cfgs, inp.get("pm"), inp.get("indent"), show_quads(inp.get("in", [])), text, msg)
+        ctx.violations.append({"key": "%s/%s" % (code, cfgs), "detail": detail, "event": e, "trace": tr, "line": line})
+    ctx.traces_validated += len(trace) - len(bad)
+    for e in trace:
+        if e["ev"] == "RT":
+            ctx.distinct.add(h([e["fmt"], e["pretty"], e["pm"], e["indent"], e["in"]]))
+    return trace
+
+
+def c04(ctx):
+    binary = build()
+    # (1) the decision procedure of the pretty-printer, model-checked on every small graph
+    mc = Bg(lambda: model_check(ctx, "MC_TurtlePretty", workers=4, timeout=900))
+    # (2) the same universe, printed by TLC, through the real serializers and parsers
+    out = tlc(ctx, "Gen_TurtlePretty", workers=1, timeout=600)
+    tlc_must_be_clean(out, "Gen_TurtlePretty")
+    graphs = [json.loads(json.loads(l.strip())) for l in out.splitlines() if l.strip().startswith('"{') and "GRAPH" in l[:40]]
+    if len(graphs) < 30000:
+        raise ToolError("Gen_TurtlePretty printed only %d graphs" % len(graphs))
+    genf = os.path.join(ctx.gen, "graphs.ndjson")
+    with open(genf, "w") as f:
+        for g in graphs:
+            f.write(json.dumps(g) + "\n")
+    stride = 12 if ctx.quick() else 1
+    ctx.exhaustive = not ctx.quick()
+    tr1 = os.path.join(ctx.traces, "model.ndjson")
+    sv(binary, ["rt", "--family", "turtle-model", "--gen", genf, "--stride", stride, "--seed", ctx.seed, "--out", tr1], ctx=ctx, timeout=3000)
+    rt_validate(ctx, tr1, "model")
+    # (3) random shapes beyond the model: literals, shorthands, prefix maps, RDF-star, named graphs, streaming mode
+    tr2 = os.path.join(ctx.traces, "random.ndjson")
+    n = 4000 if ctx.quick() else 80000
+    sv(binary, ["rt", "--family", "turtle", "--n", n, "--seed", ctx.seed, "--out", tr2], ctx=ctx, timeout=6000)
+    trace = rt_validate(ctx, tr2, "random")
+    ctx.samples += [{"config": [e["fmt"], e["pretty"], e["pm"], e["indent"]], "in": show_quads(e["in"]), "document": uncps(e["text"])} for e in trace[40:900:400] if e["ev"] == "RT"]
+    mc.join()
+    ctx.rule = ("TurtlePretty.tla transcribes the pretty-printer's decision procedure (labelling incl. the cycle walk, subject types, list detection, traversal); TLC checks 'every triple written exactly once' on ALL 36,051 graphs "
+                "with <= 3 triples over 3 blank nodes + 1 IRI x {p, rdf:first, rdf:rest} x {blank nodes, IRI, rdf:nil}. TLC prints that universe and every %s graph goes through the real pretty Turtle/TriG serializer and parser "
+                "(6 prefix maps, 3 indentations). %d random shapes (blank-node cycles, shared/unreferenced blank nodes, well-formed and malformed lists, asserted-and-quoted triples, blank nodes across graphs, 22 valid/near-valid "
+                "numeric and boolean lexical forms, IRIs whose local part needs escaping) x {Turtle, TriG} x {streaming, pretty} x prefix maps (none, overlapping, empty prefix) x indentations; each input in a child process "
+                "(memory/time limits; a death is an event). TLC judges isomorphism by brute force. distinct = (configuration, dataset)" % ("12th" if ctx.quick() else "single", n))
+    ctx.assumptions += ["syntactic validity = acceptance by the shipped parser (no TLA+ grammar of full Turtle)"]
+
+
 FAMILIES = {
+    "C04": c04,
     "C13": c13,
     "C14": c14,
     "C05": c05,
